@@ -84,6 +84,16 @@ func concDirect(cs concSpec) map[string]any {
 				time.Sleep(time.Duration(rng.Intn(200)) * time.Microsecond)
 			}
 			for i := 0; i < cs.OpsEach; i++ {
+				if rng.Intn(8) == 0 {
+					// (round 8) a concurrent load of an unrelated script set whose scripts use() each other: judged
+					// like a solo load; the loaded scripts running meanwhile (use() nested two deep) are not disturbed
+					lo := loadDirect(loadCase{Scripts: []scriptSrc{{"x.p", "use(\"y.p\")\nadd_key(fromx, 1)\n"}, {"y.p", "add_key(fromy, 1)\nuse(\"z.p\")\n"}, {"z.p", "add_key(fromz, 1)\n"}}, Order: []string{"x.p", "y.p", "z.p"}, Reps: 1})
+					lo["id"] = fmt.Sprintf("g%d.%d", g, i)
+					mu.Lock()
+					parses = append(parses, lo)
+					mu.Unlock()
+					continue
+				}
 				if len(cs.ParseSrcs) > 0 && rng.Intn(3) == 0 {
 					src := cs.ParseSrcs[rng.Intn(len(cs.ParseSrcs))]
 					// a concurrent parse: its outcome (tree or rejection) is judged like a solo parse
@@ -169,6 +179,7 @@ func genC16(e *emitter, tier string, seed int64) {
 	scripts := []scriptSrc{
 		{"grok.p", "add_pattern(\"W\", \"\\\\w+\")\nif true {\n  add_pattern(\"N\", \"\\\\d+\")\n  grok(_, \"%{W:w} %{N:n:int}\")\n}\np(get_key(w), get_key(n))\n"},
 		{"use.p", "v = [1, 2]\nuse(\"lib.p\")\nuse(\"grok.p\")\nv[0] = get_key(fromlib)\np(v)\n"},
+		{"deep.p", "use(\"use.p\")\np(\"deep\", get_key(fromlib))\n"},
 		{"lib.p", "add_key(fromlib, len(message))\nfor i = 0; i < 3; i = i + 1 {\n  add_key(cnt, i)\n}\n"},
 		{"misc.p", "m = {\"a\": [1, 2, 3]}\nfor x in m[\"a\"] {\n  add_key(last, x)\n}\nrename(mm, message)\nset_tag(tg, \"t\")\ncast(f1, \"str\")\nl = [3, 2, 1]\np(l[::-1], \"é\"[0:1])\ndefault_time(ts)\nreplace(url, \"[0-9]+\", \"N\")\n"},
 		{"err.p", "z = 0\nadd_key(before, 1)\nx = 1 / z\n"},
@@ -187,7 +198,7 @@ func genC16(e *emitter, tier string, seed int64) {
 		{"code2.p", "add_pattern(\"code\", \"[a-z]+\")\nif true {\n  grok(_, \"%{WORD:w} %{code:c}\")\n}\np(get_key(w), get_key(c))\n"},
 		{"code3.p", "if true {\n  add_pattern(\"code\", \"4\")\n  grok(_, \"%{WORD:w} %{code:c}\")\n}\nadd_pattern(\"code\", \".+\")\ngrok(_, \"%{WORD:w} %{code:c}\")\np(get_key(w), get_key(c))\n"},
 	}
-	entries := []string{"grok.p", "use.p", "lib.p", "misc.p", "err.p", "sql.p", "sql.p", "code1.p", "code2.p", "code3.p", "errblk.p", "reader.p", "reader.p", "jsonlit.p", "jsonlit.p", "xmlgroup.p", "xmlgroup.p", "fmtlist.p", "fmtlist.p"}
+	entries := []string{"grok.p", "use.p", "deep.p", "deep.p", "lib.p", "misc.p", "err.p", "sql.p", "sql.p", "code1.p", "code2.p", "code3.p", "errblk.p", "reader.p", "reader.p", "jsonlit.p", "jsonlit.p", "xmlgroup.p", "xmlgroup.p", "fmtlist.p", "fmtlist.p"}
 	parseSrcs := []string{"a = 1\nif a {\n  b = [1, 2]\n}\n", "x = \"str\" # c\nfor i = 0; i < 3; i = i + 1 {\n}\n", "broken ( [", "'''multi\nline'''\n", "f(a = 1, 2 +)", "use(\"q.p\")\n",
 		"x = (1 + [2", "y = f(1))\n", "}\n", "a = [1, 2]]\n", "m = {\"k\": (1\n", "z = a[1\n", "if x {\n  y = 1\n", "f(g(h(1, [2, {\"a\": 3}])))\n", "v = (1 + 2) * [3][0]\n"}
 	points := []pointSpec{
